@@ -1,5 +1,6 @@
 /- Line protocol for C11: `c11 <path> <args..> <trace>` -> result token. See harness/src/bin/c11.rs. -/
 import EcModel.Drv.WkcUtil
+import EcModel.WkcEeprom
 
 namespace Ec.Drv.C11
 open Ec Ec.Drv Ec.Wkc Ec.Drv.WkcUtil
@@ -11,6 +12,18 @@ def first (tr : List Ev) (f : Exchange → String) : String :=
   match tr with
   | [] => "badtrace"
   | e :: _ => f (exch none e)
+
+/-- Errors of the EEPROM layers above the provider, as `wkcnet::err_token` prints them. -/
+def showEErr : EErr → String
+  | .base e => showErr e
+  | .sectionOverrun => "other:Eeprom(SectionOverrun)"
+  | .internal => "other:Internal"
+  | .wireInvalid => "wire"
+  | .panic _ => "panic"
+
+def showERes {α : Type} (f : α → String) : ERes α → String
+  | .ok a => f a
+  | .error e => showEErr e
 
 /-- First token after the key is the harness' recipe (per-case seed, for replay): ignored. -/
 def handle (args : List String) : String :=
@@ -26,6 +39,13 @@ def handle (args : List String) : String :=
   | ["eerd", tr] => showRes hexOk (readChunk (parseTrace tr)).1
   | ["eewr", tr] => showRes (fun _ => "ok") (writeWord (parseTrace tr)).1
   | ["eeclr", tr] => showRes (fun _ => "ok") (clearErrors (parseTrace tr)).1
+  | ["eeraw", word, cover, skip, n, tr] =>
+    showERes (fun (b : List Nat) => s!"ok:{b.length}:" ++ (if b.isEmpty then "-" else hexBytes b))
+      (eeRaw (nat! word) (nat! cover) (nat! skip) (nat! n) (parseTrace tr)).1
+  | ["eetyped", word, n, tr] => showERes hexOk (eeTyped (nat! word) (nat! n) (parseTrace tr)).1
+  | ["eefmmus", tr] => showERes hexOk (eeFmmus (parseTrace tr)).1
+  | ["eewrite", word, n, tr] => showERes (fun _ => "ok") (eeWrite (nat! word) (nat! n) (parseTrace tr)).1
+  | ["eealias", tr] => showERes (fun _ => "ok") (eeAlias (parseTrace tr)).1
   | ["mbx", rt, tr] => showRes (fun _ => "ok") (mailboxRounds (nat! rt) (parseTrace tr)).1
   | ["grp", mode, pduLen, desired, members, tr] =>
     showRes (fun _ => "ok") (Group.transitionTo (parseMode mode) (nat! pduLen) (nat! desired) (parseNats members) (parseTrace tr)).1
